@@ -330,13 +330,20 @@ Definition prepend_char (o : str) (c : byte) : res (bool * str) :=
 
 (* ================= splice ================= *)
 (* common part of splice / splice_from_ptr: ins = the cells to insert (already fetched) *)
-Definition splice_cells (o : str) (idx cnt : Z) (ins : res (list cell)) : res (bool * str) :=
+(* the REQUIRE_RVAL guards of splice: normalised (idx, cnt), or None when refused *)
+Definition splice_args (o : str) (idx cnt : Z) : option (Z * Z) :=
   let idx := if idx <? 0 then str_len o + idx else idx in
-  if negb (idx >=? 0) then Ok (false, o) else
-  if negb (idx <? str_len o) then Ok (false, o) else
+  if negb (idx >=? 0) then None else
+  if negb (idx <? str_len o) then None else
   let cnt := if cnt <? 0 then idx + str_len o + cnt else cnt in
-  if negb (cnt >=? 0) then Ok (false, o) else
-  if negb (cnt <=? str_len o - idx) then Ok (false, o) else
+  if negb (cnt >=? 0) then None else
+  if negb (cnt <=? str_len o - idx) then None else
+  Some (idx, cnt).
+
+Definition splice_cells (o : str) (idx cnt : Z) (ins : res (list cell)) : res (bool * str) :=
+  match splice_args o idx cnt with
+  | None => Ok (false, o)
+  | Some (idx, cnt) =>
   ins <- ins ;;
   let newsize := str_len o + zlen ins - cnt + 1 in
   tmp <- malloc newsize ;;
@@ -350,7 +357,8 @@ Definition splice_cells (o : str) (idx cnt : Z) (ins : res (list cell)) : res (b
                   else Ok (str_s o, str_size o)) ;;
   b' <- deref s' ;;
   b'' <- putz b' 0 tmp3 ;;
-  Ok (true, mkstr (Some b'') (newsize - 1) size).
+  Ok (true, mkstr (Some b'') (newsize - 1) size)
+  end.
 
 Definition splice (o : str) (idx cnt : Z) (other : option str) : res (bool * str) :=
   splice_cells o idx cnt
@@ -485,7 +493,8 @@ Fixpoint strcmp_l (a b : list byte) : Z :=
 Inductive cmp_kind : Type := CmpPlain | CmpCase | CmpN (n : Z) | CmpNCase (n : Z).
 
 (* the count is converted to size_t: a negative one compares everything *)
-Definition cut (n : Z) (t : list byte) : list byte := if n <? 0 then t else firstn (Z.to_nat n) t.
+Definition cut (n : Z) (t : list byte) : list byte :=
+  if (n <? 0) || (zlen t <=? n) then t else firstn (Z.to_nat n) t.
 
 Definition cmp_bytes (k : cmp_kind) (a b : list byte) : Z :=
   match k with
